@@ -28,6 +28,7 @@ int main(int argc, char** argv)
     const bool two = (nr % 2 == 1) && (nr + 1) / 2 >= 5 && (nt % 4 == 0) && nt / 2 >= 4 && (cap <= 0 || cap >= 2);
     int fails = 0;
     std::printf("nr=%d ntheta=%d maxLevels=%d -> %s levels=%d\n", nr, nt, cap, thrown ? "exception" : "ok", L);
+    if (s.max_levels_ != cap) { std::printf("FAIL: chooseNumberOfLevels rewrote the maxLevels option: %d -> %d\n", cap, s.max_levels_); fails++; }
     if (thrown != !two) { std::printf("FAIL: rejection does not match `no two-level hierarchy exists`\n"); fails++; }
     if (!thrown) {
         int a = nr, b = nt;
